@@ -63,20 +63,23 @@ Idempotent == {"trim", "trimLeft", "trimRight", "removeWhitespace", "compressWhi
 
 (***************************************************************************)
 (* The laws, stated on one record of the recorded function table           *)
-(*   rec = [name, in, out, changed, out2, inAfter, aliased, err, comp,     *)
-(*          base]                                                          *)
+(*   rec = [name, in, out, changed, out2, outLater, inAfter, aliased, err, *)
+(*          comp, base]                                                    *)
 (*   comp  "" for a plain record, otherwise "inverse" (out = second(first  *)
 (*         (in))) or "twice" (out = t(t(in)), base = t(in))                *)
 (***************************************************************************)
 Pure(r)         == r.out = r.out2
+\* a returned value belongs to the caller: it reads the same after the transformation has been
+\* evaluated again on another input (outLater = the first result read again after that evaluation)
+OutputStable(r) == r.outLater = r.out
 InputIntact(r)  == r.inAfter = r.in /\ ~r.aliased
 \* (when a transformation reports an error its output is discarded by the rule engine)
 ChangeSound(r)  == (r.comp = "" /\ ~r.err /\ r.out # r.in) => r.changed
 RefEqual(r)     == (r.comp = "" /\ r.name \in RefNames /\ RefApplies(r.name, r.in) /\ ~r.err) => r.out = Ref(r.name, r.in)
 InverseLaw(r)   == (r.comp = "inverse" /\ ~r.err) => r.out = r.in
 IdemLaw(r)      == r.comp = "twice" => r.out = r.base
-Laws(r) == Pure(r) /\ InputIntact(r) /\ ChangeSound(r) /\ RefEqual(r) /\ InverseLaw(r) /\ IdemLaw(r)
+Laws(r) == Pure(r) /\ OutputStable(r) /\ InputIntact(r) /\ ChangeSound(r) /\ RefEqual(r) /\ InverseLaw(r) /\ IdemLaw(r)
 FirstBroken(r) ==
-  IF ~Pure(r) THEN "Pure" ELSE IF ~InputIntact(r) THEN "InputIntact" ELSE IF ~ChangeSound(r) THEN "ChangeSound"
+  IF ~Pure(r) THEN "Pure" ELSE IF ~OutputStable(r) THEN "OutputStable" ELSE IF ~InputIntact(r) THEN "InputIntact" ELSE IF ~ChangeSound(r) THEN "ChangeSound"
   ELSE IF ~RefEqual(r) THEN "RefEqual" ELSE IF ~InverseLaw(r) THEN "InverseLaw" ELSE IF ~IdemLaw(r) THEN "IdemLaw" ELSE ""
 =============================================================================
